@@ -737,11 +737,13 @@ def sandwich(tier="quick", start_id=0):
                 "strategy": strategy, "reuse": "never"}
     warm3 = [{"op": "load", "c": 0, "g": 62}, {"op": "drop_g", "g": 62}]
     ld1 = [{"op": "load", "c": 1, "g": 17}, {"op": "deref_g", "g": 17}, {"op": "drop_g", "g": 17}]
+    ld1c = [{"op": "load", "c": 1, "g": 19}, {"op": "deref_g", "g": 19}, {"op": "drop_g", "g": 19}]    # (own register: threads B and C overlap)
+    ldc = [{"op": "load", "c": 0, "g": 20}, {"op": "deref_g", "g": 20}, {"op": "drop_g", "g": 20}]
     st1 = [{"op": "store", "c": 1, "v": new()}]
     sw1 = [{"op": "swap", "c": 1, "v": new(), "h": 36}, {"op": "deref_h", "h": 36}]
-    trio = [("st|ld|st", warm + st, warm2 + ld, warm3 + st, 56), ("st|ld|ld1", warm + st, warm2 + ld + ld1, warm3 + ld1, 56),
-            ("ld,ld1|st|st1", warm + ld + ld1, warm2 + st, warm3 + st1, 44), ("rcu|st|ld", warm + rcu, warm2 + st, warm3 + ld, 60),
-            ("cas|st|st", warm + cas, warm2 + st, warm3 + st, 70), ("st|sw1|ld,ld1", warm + st, warm2 + sw1, warm3 + ld + ld1, 56)]
+    trio = [("st|ld|st", warm + st, warm2 + ld, warm3 + st, 56), ("st|ld|ld1", warm + st, warm2 + ld + ld1, warm3 + ld1c, 56),
+            ("ld,ld1|st|st1", warm + ld + ld1, warm2 + st, warm3 + st1, 44), ("rcu|st|ld", warm + rcu, warm2 + st, warm3 + ldc, 60),
+            ("cas|st|st", warm + cas, warm2 + st, warm3 + st, 70), ("st|sw1|ld,ld1", warm + st, warm2 + sw1, warm3 + ldc + ld1c, 56)]
     for name, a, b, c, ka in trio:
         for strat in ("nofast", "default"):
             p = prog3(a, b, c, strat)
